@@ -15,6 +15,7 @@
 """Utilities for serializing and deserializing state objects to and from JSON."""
 import functools
 import json
+import re
 from collections import deque
 from dataclasses import is_dataclass
 from datetime import datetime
@@ -81,10 +82,20 @@ def encode_to_dict(obj: Any, refs: Dict[int, Any]):
     else:
         # Otherwise, we need custom encoding with support for references
         if isinstance(obj, dict):
-            value = {
-                "__type": "dict",
-                "value": {k: encode_to_dict(v, refs) for k, v in obj.items()},
-            }
+            if all(isinstance(k, str) for k in obj):
+                value = {
+                    "__type": "dict",
+                    "value": {k: encode_to_dict(v, refs) for k, v in obj.items()},
+                }
+            else:
+                # JSON object keys are always strings: keep other keys as an item list
+                value = {
+                    "__type": "dict",
+                    "items": [
+                        [encode_to_dict(k, refs), encode_to_dict(v, refs)]
+                        for k, v in obj.items()
+                    ],
+                }
         elif is_dataclass(obj):
             value = {
                 "__type": type(obj).__name__,
@@ -114,6 +125,8 @@ def encode_to_dict(obj: Any, refs: Dict[int, Any]):
             value = {"__type": "tuple", "value": [encode_to_dict(v, refs) for v in obj]}
         elif isinstance(obj, set):
             value = {"__type": "set", "value": [encode_to_dict(v, refs) for v in obj]}
+        elif isinstance(obj, re.Pattern):
+            value = {"__type": "regex", "pattern": obj.pattern, "flags": obj.flags}
         else:
             raise Exception(f"Unhandled type in encode_to_dict: {type(obj)}")
 
@@ -181,7 +194,18 @@ def decode_from_dict(d: Any, refs: Dict[int, Any]):
                 value = tuple(decode_from_dict(d["value"], refs))
 
             elif d_type == "dict":
-                value = {k: decode_from_dict(v, refs) for k, v in d["value"].items()}
+                if "items" in d:
+                    value = {
+                        decode_from_dict(k, refs): decode_from_dict(v, refs)
+                        for k, v in d["items"]
+                    }
+                else:
+                    value = {
+                        k: decode_from_dict(v, refs) for k, v in d["value"].items()
+                    }
+
+            elif d_type == "regex":
+                value = re.compile(d["pattern"], d["flags"])
 
             elif d_type == "set":
                 value = set(decode_from_dict(d["value"], refs))
